@@ -9,7 +9,8 @@
 //!
 //! Events: T (timer fires; virtual time is advanced by the previously requested timer),
 //! valid answers to the pending request N (normal), NU (normal + NTPv5 upgrade marker,
-//! upgrading sources only), RATE, DENY, RSTR, NTSN, UNK (unknown kiss code), and DL / DH
+//! upgrading sources only), RATE, DENY, RSTR, NTSN, NAKD / NAKR (NTPv5 authnak flag combined
+//! with poll 127 / own+1), UNK (unknown kiss code), and DL / DH
 //! (the source's own clock filter, a stub controller, now desires the low / high interval).
 //! All answers are assembled at byte level from the request the source emitted (origin /
 //! client cookie / unique identifier are read back); for NTS sources they are authenticated
@@ -757,13 +758,18 @@ enum Ev {
     Unk,
     DL,
     DH,
+    /// NTPv5 only: NTS-NAK (authnak flag) whose poll field has the value that would otherwise
+    /// mean DENY (127) / RATE (own+1). Still an NTS-NAK, so nothing may change (this is the
+    /// plain-and-NTS, KISS-statement side of D1; the authentication side is C07's).
+    NakD,
+    NakR,
     /// answers produced by a real `Server` (part G): normal, DENY, NTS-NAK
     GN,
     GD,
     GK,
 }
 
-const ALL_EV: [Ev; 10] = [Ev::T, Ev::N, Ev::NU, Ev::Rate, Ev::Deny, Ev::Rstr, Ev::Ntsn, Ev::Unk, Ev::DL, Ev::DH];
+const ALL_EV: [Ev; 12] = [Ev::T, Ev::N, Ev::NU, Ev::Rate, Ev::Deny, Ev::Rstr, Ev::Ntsn, Ev::NakD, Ev::NakR, Ev::Unk, Ev::DL, Ev::DH];
 const GENUINE_EV: [Ev; 4] = [Ev::T, Ev::GN, Ev::GD, Ev::GK];
 
 impl Ev {
@@ -779,6 +785,8 @@ impl Ev {
             Ev::Unk => "UNK",
             Ev::DL => "DL",
             Ev::DH => "DH",
+            Ev::NakD => "NAKD",
+            Ev::NakR => "NAKR",
             Ev::GN => "GN",
             Ev::GD => "GD",
             Ev::GK => "GK",
@@ -1047,6 +1055,16 @@ async fn replay_hist(cfg: &Cfg, hist: &[Ev], ctx: Option<&Ctx>, classes: Option<
                     Ev::Deny => rig::kiss(&req, Kiss::Deny),
                     Ev::Rstr => rig::kiss(&req, Kiss::Rstr),
                     Ev::Ntsn => rig::kiss(&req, Kiss::Ntsn),
+                    Ev::NakD | Ev::NakR => {
+                        if req.ver == 5 && req.poll < 126 {
+                            rig::kiss(&req, Kiss::Ntsn).map(|mut w| {
+                                w.poll = if a == Ev::NakD { 127 } else { (req.poll as u8).wrapping_add(1) };
+                                w
+                            })
+                        } else {
+                            None
+                        }
+                    }
                     Ev::Unk => rig::kiss(&req, Kiss::Unknown),
                     _ => unreachable!(),
                 };
@@ -1142,8 +1160,13 @@ async fn replay_hist(cfg: &Cfg, hist: &[Ev], ctx: Option<&Ctx>, classes: Option<
                             model.marked = true;
                         }
                     }
-                    Ev::Ntsn | Ev::Unk => {
-                        bump(if a == Ev::Ntsn { "ntsn" } else { "unknown-kiss" });
+                    Ev::Ntsn | Ev::NakD | Ev::NakR | Ev::Unk => {
+                        bump(match a {
+                            Ev::Ntsn => "ntsn",
+                            Ev::NakD => "ntsn-v5-poll127",
+                            Ev::NakR => "ntsn-v5-poll-above-own",
+                            _ => "unknown-kiss",
+                        });
                         let mut a0 = v0.clone();
                         let mut a1 = v1.clone();
                         // version negotiation bookkeeping is C12's, not part of this statement
@@ -1366,7 +1389,7 @@ fn check() {
         return;
     }
     ctx.rule(
-        "breadth-first search to fixpoint over histories of {T, N, NU, RATE, DENY, RSTR, NTSN, UNK, DL, DH} on the real NtpSource \
+        "breadth-first search to fixpoint over histories of {T, N, NU, RATE, DENY, RSTR, NTSN, NAKD, NAKR (v5 authnak with poll 127 / own+1), UNK, DL, DH} on the real NtpSource \
          (plain / NTS x NTPv4 / NTPv5 / v4-upgrading, poll limits per config), answers byte-assembled for the pending request \
          (NTS: authenticated with the s2c key; NTS-NAK in the clear); answer events are enabled while a request is outstanding, \
          so several answers per poll and every interleaving with unanswered polls is covered. Part G: every word of length <= 6 (thorough 8) \
@@ -1376,7 +1399,7 @@ fn check() {
     ctx.assume("a KISS answer does not consume the outstanding request (a further answer to it is still 'valid'); the harness cross-checks this with the probe's pending flag and counts disagreements as pending-view-differs");
     ctx.assume("canonical key: identifiers masked, tries saturated at 3 (only compared with the start-up threshold), bloom-filter cursor and stub controller internals excluded (do not influence actions)");
     ctx.assume("usable answer = one after which the controller received measurements (acceptance rules themselves are C08)");
-    ctx.assume("NTPv5 classes kept unambiguous: RATE = stratum 0 & poll own+1, DENY = poll 127, NAK = authnak & poll own, unknown = stratum 0 & poll own; the overlapping encodings are C07 (D1)");
+    ctx.assume("NTPv5 classes: RATE = stratum 0 & poll own+1, DENY = poll 127, unknown = stratum 0 & poll own, NAK = authnak flag with ANY poll (own, own+1, 127): a packet carrying the authnak flag is an NTS-NAK whatever its poll field says (D1, fixed in /repo eb5dfa6)");
     let classes = Mutex::new(BTreeMap::new());
     let cfgs: Vec<(Cfg, Vec<Ev>)> = configs(ctx.quick())
         .into_iter()
@@ -1386,6 +1409,7 @@ fn check() {
                 .copied()
                 .filter(|e| match e {
                     Ev::NU => cfg.ver == Ver::Auto,
+                    Ev::NakD | Ev::NakR => cfg.ver != Ver::V4,
                     Ev::DH | Ev::DL => desire_values(&cfg).0 != desire_values(&cfg).1,
                     _ => true,
                 })
